@@ -16,7 +16,9 @@ TNext ==
   /\ l <= Len(Rec)
   /\ LET r == Apply(st, Rec[l]) IN
        /\ st' = r.st
-       /\ viol' = viol \cup {<<x[1], x[2], l>> : x \in r.bad}
+       \* only the first violation of each property is kept (later ones may be knock-on, and an
+       \* ever-growing set would make a badly broken implementation take for ever to report)
+       /\ viol' = viol \cup {<<x[1], x[2], l>> : x \in {y \in r.bad : y[1] \notin {v[1] : v \in viol}}}
   /\ l' = l + 1
 
 TSpec == TInit /\ [][TNext]_vars
